@@ -504,7 +504,23 @@ def _exp(a):
     return r
 
 
+def _obviously_pos(t):
+    if t.op == "c":
+        return t.val > 0
+    if t.op == "uf":
+        return t.val == "exp"
+    if t.op in ("+", "*", "/"):
+        return _obviously_pos(t.args[0]) and _obviously_pos(t.args[1])
+    return False
+
+
 def _log(a):
+    # log laws on manifestly positive arguments (sound real identities): keeps log-softmax style terms decidable
+    if a.op == "uf" and a.val == "exp":
+        return a.args[0]
+    if a.op in ("/", "*") and _obviously_pos(a.args[0]) and _obviously_pos(a.args[1]):
+        l0, l1 = _log(a.args[0]), _log(a.args[1])
+        return tm.sub(l0, l1) if a.op == "/" else tm.add(l0, l1)
     if a.op == "c":
         if a.val <= 0:
             raise NonReal("log of non-positive constant")
